@@ -43,6 +43,9 @@ pub fn install_panic_hook() {
             .location()
             .map(|l| (l.file().to_string(), l.line()))
             .unwrap_or_default();
+        if std::env::var_os("CAOSIM_DEBUG").is_some() {
+            eprintln!("panic: {msg} at {file}:{line}\n{}", std::backtrace::Backtrace::force_capture());
+        }
         LAST_PANIC.with(|p| *p.borrow_mut() = Some(PanicRecord { msg, file, line }));
     }));
 }
